@@ -12,6 +12,7 @@ const (
 	ParentNotFound          = "parent directive not found"
 	MacroNotFound           = "macro not found"
 	TooManyDirectives       = "the expansion of the macros gives too many directives"
+	TooManyIncludes         = "the project includes too many files"
 	ServerNotFound          = "server not found"
 	JsonRpcMethodNotFound   = "JSON-RPC method not found"
 	JsonRpcResourceNotFound = "resource not found"
